@@ -28,7 +28,8 @@ EXPLANATION = (
     ' (R14) a retried operation is restartable: the function handed to with_s3_retry mutates nothing it captured.'
     " (R15) an S3 operation answers with what the store said: exists() -> True exactly after a successful HEAD, read-type results derive from the response, seek dispatch by scenario. R2: the re-raise sits on the non-404 side; R3: the retry layer returns the operation's result; R6: strict `pos >= size` guard; R11 is interprocedural; R1 tolerates trailing optional parameters."
     ' R2 reads table-driven error classification and exception factories.'
-    " R9 also lists a key whose table prefix recurs inside the key (prefix 'data', key 'data/data/x.parquet').")
+    " R9 also lists a key whose table prefix recurs inside the key (prefix 'data', key 'data/data/x.parquet')."
+    ' R8: list_files hands back a materialised list, never a generator object; sibling appends in an if / else count as one. R6 finds the range function by role and understands the (offset, length) form. R15: a boto response is never None.')
 NOT_DECIDED = "operation-sequence equivalence of the two backends at run time; S3's own consistency"
 
 SB = "storage_backend"
